@@ -14,6 +14,7 @@ mod cmd_history;
 mod cmd_gamma;
 mod cmd_integrate;
 mod scalars;
+mod valfmt;
 
 pub fn f(b: u64) -> f64 {
     f64::from_bits(b)
